@@ -300,6 +300,11 @@ def snap_checks(ctx):
     pool = srcs + hand
     import itertools
 
+    # landscapes of different homological degree cannot be combined, on whatever grids they live
+    other_deg = PersLandscapeApprox(values=np.array([[0.0, 1.0, 1.0, 0.0]]), hom_deg=1, start=0.0, stop=3.0, num_steps=4)
+    for a in range(0, len(pool), 3):
+        must_raise(ctx, "degree-mismatch-combination", "lc_approx of landscapes with different homological degrees", lambda: lc_approx([pool[a], other_deg], [1.0, 1.0]), {"operand": a})
+        must_raise(ctx, "degree-mismatch-combination", "average_approx of landscapes with different homological degrees", lambda: average_approx([other_deg, pool[a]], num_steps=5), {"operand": a})
     for a, b in itertools.product(range(len(pool)), repeat=2):
         pls = [pool[a], pool[b]]
         snaps = [snap(p) for p in pls]
